@@ -659,6 +659,12 @@ func init() {
 		st.budget = 0
 		return st.steps - st.budgetStart
 	}
+	// Work(f): run f, return the SSA instructions it executed
+	intrinsics[zz+"Work"] = func(st *pstate, fr *frame, fn *ssa.Function, args []value) value {
+		before := st.steps
+		call(fr.i, fr, token.NoPos, args[0], nil)
+		return st.steps - before + 1
+	}
 	intrinsics[zz+"Failed"] = func(st *pstate, fr *frame, fn *ssa.Function, args []value) value { return false }
 	intrinsics[zz+"Skip"] = func(st *pstate, fr *frame, fn *ssa.Function, args []value) value { return nil }
 	intrinsics[zz+"FreezeNative"] = func(st *pstate, fr *frame, fn *ssa.Function, args []value) value { return nil }
